@@ -80,7 +80,7 @@ theorem repaired_cache_is_served (cfg : Cfg M) (w : World M) (o : Opts) (now siz
 
 /-- The hypothesis `unpickleErr ⊆ caught` is necessary: when unpickling the prefix raises a
     class outside the `except` clauses the exception escapes `transfer_model` (this is what the
-    code did for every truncation before `cd26bc9`, see `PymocaVerif.CacheState.convert`). -/
+    code did for every truncation before `cd26bc9`, and for spliced files before `9d600b8`). -/
 theorem uncaught_class_escapes (cfg : Cfg M) (w : World M) (c : CacheFile M) (o : Opts)
     (now size : Nat) (hc : w.cache = some c) (hcut : c.written < c.size)
     (hfresh : ∀ f ∈ folders o.norm, stale c (w.fs f) = false)
@@ -97,8 +97,9 @@ theorem uncaught_class_escapes (cfg : Cfg M) (w : World M) (c : CacheFile M) (o 
     simp [hc, hst, hcomp, hbad]
   simp [this]
 
-/-- The classes CPython documents for unpickling failures (and their subclasses, by MRO) are
-    converted, unless the exception is also a `RuntimeError`. -/
+/-- Every `Exception` the unpickler raises (by MRO: the documented `UnpicklingError`,
+    `AttributeError`, `EOFError`, `ImportError`, `IndexError`, but also `ValueError`,
+    `UnicodeDecodeError`, … seen on spliced files) is converted, unless it is a `RuntimeError`. -/
 theorem documented_classes_converted (mro : List String) (d : Bool) (c : String)
     (hc : c ∈ caughtClasses) (hm : c ∈ mro) (hr : "RuntimeError" ∉ mro) :
     convert ⟨mro, d⟩ = some .damaged := by
@@ -122,8 +123,10 @@ example : ((transfer exCfg21 (transfer exCfg21 exW21 exO 10 100 (.after 37)).1 e
     = "compiled:damaged" := by decide
 example : ((transfer exCfg21 (transfer exCfg21 (transfer exCfg21 exW21 exO 10 100 (.after 37)).1 exO 20 100).1
     exO 30 100).2).kind = "hit" := by decide
--- a class outside the except clauses: the hypothesis of `uncaught_class_escapes` is satisfiable
-example : convert ⟨["ValueError", "Exception"], false⟩ = none := by decide
+-- classes outside the except clauses: the hypothesis of `uncaught_class_escapes` is satisfiable
+example : convert ⟨["KeyboardInterrupt", "BaseException"], false⟩ = none := by decide
+example : convert ⟨["RecursionError", "RuntimeError", "Exception", "BaseException"], false⟩ = none := by decide
+example : convert ⟨["ValueError", "Exception", "BaseException"], false⟩ = some .damaged := by decide
 example : convert ⟨["ModuleNotFoundError", "ImportError", "Exception"], false⟩ = some .damaged := by decide
 end examples
 
